@@ -95,6 +95,7 @@ def main():
     C = sleep.contracts()
     chk.unit(F, 'mj_sleepCycle', C, 'math', 'fp', extra_flags=FLAGS)
     chk.unit(F, 'mj_wakeIsland', C, 'math', 'fp', extra_flags=FLAGS)
+    chk.unit(F, 'treeCanSleep', C, 'math', 'fp', extra_flags=FLAGS)
     chk.unit(F, 'mj_sleepTrees', C, 'math', 'opaque', extra_flags=FLAGS)
     chk.unit(F, 'mj_updateSleepInit', C, 'math', 'opaque', extra_flags=FLAGS)
     chk.unit('src/engine/engine_util_blas.c', 'mju_zero', C, 'math', 'opaque')
@@ -114,7 +115,7 @@ def main():
         'model ids in range (body_treeid, body_rootid, body_parentid, dof_bodyid): model invariants',
     }
     chk.out_of_reach += ['"sleeping trees keep bit-identical qpos across steps" and "enabling sleep changes no result while no tree is asleep": whole-pipeline relational claims',
-                         'the wake policies (mj_wake, mj_wakeCollision, mj_wakeEquality, mj_wakeTendon, treeCanSleep, mj_sleep): which events wake which trees - not under contract',
+                         'the wake sweeps (mj_wake, mj_wakeCollision, mj_wakeEquality, mj_wakeTendon, mj_sleep): which events wake which trees - not under contract; the per-tree test treeCanSleep (exact form, tol == 0) is',
                          'completeness of the index lists of mj_updateSleepInit (every selected body / dof appears): needs an existential witness per element; soundness, order and bounds are proved',
                          'mj_sleepCycle returning the MINIMUM of the cycle (proved: a member of the cycle not above i; the bounded stand-in checks the minimum)']
     return chk.finish()
